@@ -544,4 +544,9 @@ class Namespace:
         # don't set newlocation if the context isn't right
         if context is not self.feeddata:
             return
-        context["newlocation"] = make_safe_absolute_uri(self.baseuri, url.strip())
+        if self.baseuri:
+            url = make_safe_absolute_uri(self.baseuri, url.strip())
+        else:
+            # without a base the two-argument form would return url unchecked
+            url = make_safe_absolute_uri(url.strip())
+        context["newlocation"] = url
